@@ -141,7 +141,7 @@ def chk_sedol(t, U, base, alter):
         isin, ok = f"raises {type(e).__name__}: {e}", False
     if not ok:
         t.fail(f"C20|sedol2isin|{cc}|bad-conversion", {"kind": "sedol2isin", "id": full}, f"{full!r} -> {isin!r}")
-    for ch in "0123456789":
+    for ch in "0123456789BCDFGHJKLMNPQRSTVWXYZ":
         if ch == exp:
             continue
         t.count("evaluations")
